@@ -6,6 +6,8 @@
     ImplApp.v; the full callsign property (C17) lives in its own development. *)
 From Coq Require Import NArith ZArith Arith Bool String Lia List.
 From M17 Require Import Checked ConstsApp ImplApp LemmasApp SpecApp LemmasC20.
+(* for the end-to-end composition (section 5): transmitter model (C13), frame decoder model (C01); qualified names only *)
+From M17 Require SpecCRC SpecM17 ImplMod ImplViterbi ImplFrameDecoder FrameDecoderInst LemmasFD_Inst LemmasRT_A LemmasE2E.
 Import ListNotations.
 Local Open Scope nat_scope.
 
@@ -75,4 +77,96 @@ Proof. vm_compute. repeat split. Qed.
 Example c20_broadcast_instance :
   spec_lsf_line None ex_src 15 (repeat 255%N 14) [0; 1]%N
   = [10%N] ++ str "SRC: W1AW, DEST: BROADCAST, STR:V/V CAN:15, NONCE: ffffffffffffffffffffffffffff, CRC: 0001" ++ [10%N].
+Proof. vm_compute. reflexivity. Qed.
+
+(** 5. END TO END at the level of the three models (composition of C13 c13_mod_lsf_is_spec, C01 c01_rt_lsf_m17mod and
+       theorem 1 above):  m17-mod -S src [-D dst] -C can | m17-demod -l  reports the link given to the transmitter.
+       For every valid source, every valid destination or none (= broadcast; [dest_arg None = []] is m17-mod without -D),
+       every CAN 0..15, every content of the transmitter's uninitialised puncture arrays, every frame-decoder state
+       with well-shaped buffers (any mode, any leftovers), every soft-bit magnitude vector 1..7 on the transmitted
+       signs (clean channel, any confidence), either callback return value, every application state and either
+       noise-blanker setting:
+         - send_lsf emits one frame f under the LSF sync word and returns the 30 bytes that BOTH specifications
+           describe (SpecM17.spec_lsf, transmitter side = SpecApp.spec_lsf with zero META and the CRC of the 28 bytes);
+         - the frame decoder, fed f, enters stream mode, reports OK and issues exactly one callback: LSF, those 30 bytes;
+         - handle_frame, run on every callback of that call as m17-demod does (switch on frame.type), writes to stderr
+           exactly "\nSRC: <src>, DEST: <dst|BROADCAST>, STR:V/V CAN:<nn>, NONCE: 0000000000000000000000000000, CRC: <crc>\n",
+           returns true, writes nothing to stdout and calls codec2 not at all.
+       Not covered (run by tools/props/c20.py, not proved): the analogue path between the two models (baseband
+       filter, M17Demodulator acquisition/tracking, which produce the soft bits), processes and pipes. *)
+Theorem c20_link_report_end_to_end :
+  forall (cstate : Type) (codec2_decode : cstate -> list N -> cstate * list Z)
+         (st : app cstate) (noise_blanker : bool) (dst : option (list N)) (src : list N) (can : N)
+         (uninit : list bool) (s : FrameDecoderInst.fd_state) (m : list Z) (r : bool),
+    valid_call src -> (match dst with Some cs => valid_call cs | None => True end) -> (can < 16)%N ->
+    LemmasFD_Inst.fd_hid_ok s -> length m = 368 -> Forall (fun x => 1 <= x <= 7)%Z m ->
+    let tx := ImplMod.send_lsf uninit can src (LemmasE2E.dest_arg dst) ImplMod.AUDIO in
+    let crc := SpecCRC.crc_hi_lo (SpecCRC.m17_crc (SpecM17.spec_lsf_body (LemmasE2E.dest_arg dst) src can)) in
+    exists (f : list bool) (c : Z),
+      snd tx = [ImplMod.OutFrame SpecM17.sync_lsf f] /\
+      fst tx = spec_lsf dst src can (repeat 0%N 14) crc /\
+      LemmasFD_Inst.fd_observe (FrameDecoderInst.fd_step s ImplFrameDecoder.SLsf (LemmasRT_A.soft m f) r)
+        = (ImplFrameDecoder.MStream, ImplFrameDecoder.ROk, Some c, [ImplFrameDecoder.mkcb ImplFrameDecoder.FLsf (fst tx) c]) /\
+      (Forall (fun x => x = 7%Z) m -> c = 0%Z) /\
+      run_app cstate codec2_decode {| o_display_lsf := true; o_noise_blanker := noise_blanker |} st
+        (map LemmasE2E.app_callback
+             (ImplFrameDecoder.cbs_of ImplViterbi.scratch
+                (FrameDecoderInst.fd_step s ImplFrameDecoder.SLsf (LemmasRT_A.soft m f) r)))
+      = Ok ({| a_packet := []; a_counter := 0%N; a_hex := false; a_prbs := a_prbs st; a_codec := a_codec st |},
+            [{| r_ret := true; r_err := spec_lsf_line dst src can (repeat 0%N 14) crc; r_out := []; r_c2 := [] |}]).
+Proof. exact LemmasE2E.link_report_end_to_end. Qed.
+Print Assumptions c20_link_report_end_to_end.
+
+(** the same as one function from the transmitter's arguments to the receiver's output (LemmasE2E.lsf_pipeline:
+    send_lsf, soft bits, frame decoder step, handle_frame on every callback) *)
+Theorem c20_link_report_pipeline :
+  forall (cstate : Type) (codec2_decode : cstate -> list N -> cstate * list Z)
+         (st : app cstate) (noise_blanker : bool) (dst : option (list N)) (src : list N) (can : N)
+         (uninit : list bool) (s : FrameDecoderInst.fd_state) (m : list Z) (r : bool),
+    valid_call src -> (match dst with Some cs => valid_call cs | None => True end) -> (can < 16)%N ->
+    LemmasFD_Inst.fd_hid_ok s -> length m = 368 -> Forall (fun x => 1 <= x <= 7)%Z m ->
+    LemmasE2E.lsf_pipeline cstate codec2_decode noise_blanker st uninit s m r dst src can
+    = Ok ({| a_packet := []; a_counter := 0%N; a_hex := false; a_prbs := a_prbs st; a_codec := a_codec st |},
+          [{| r_ret := true;
+              r_err := spec_lsf_line dst src can (repeat 0%N 14)
+                         (SpecCRC.crc_hi_lo (SpecCRC.m17_crc (SpecM17.spec_lsf_body (LemmasE2E.dest_arg dst) src can)));
+              r_out := []; r_c2 := [] |}]).
+Proof. exact LemmasE2E.link_report_pipeline. Qed.
+Print Assumptions c20_link_report_pipeline.
+
+(** agreement of the two independent formulations of the LSF: the transmitter-side specification (SpecM17, used by
+    C13 and C01: shifts/masks, fold_right base 40, alphabet as a code list) and the receiver-side one (SpecApp above:
+    divisions, structural recursion, alphabet as a string); the digit of EVERY character code, the base-40 number of
+    EVERY list, the six address bytes of EVERY number, and the 30 bytes for valid calls *)
+Theorem c20_lsf_specs_agree :
+  (forall c : N, SpecM17.char_digit c = value_of c) /\
+  (forall cs : list N, SpecM17.base40 cs = call_number cs) /\
+  (forall v : N, SpecM17.be_bytes 6 v = be6 v) /\
+  (forall cs : list N, valid_call cs -> SpecM17.valid_callsign cs) /\
+  (forall cs : list N, SpecM17.valid_callsign cs -> cs <> [] -> ~ In 32%N cs -> valid_call cs) /\
+  (forall (dst : option (list N)) (src : list N) (can : N),
+     (match dst with Some cs => valid_call cs | None => True end) -> (can < 16)%N ->
+     SpecM17.spec_lsf (LemmasE2E.dest_arg dst) src can
+     = spec_lsf dst src can (repeat 0%N 14)
+         (SpecCRC.crc_hi_lo (SpecCRC.m17_crc (SpecM17.spec_lsf_body (LemmasE2E.dest_arg dst) src can)))).
+Proof. exact (conj LemmasE2E.char_digit_agree (conj LemmasE2E.base40_agree (conj LemmasE2E.be_bytes6_agree
+         (conj LemmasE2E.valid_call_callsign (conj LemmasE2E.valid_callsign_call LemmasE2E.spec_lsf_agree))))). Qed.
+Print Assumptions c20_lsf_specs_agree.
+
+(** non-vacuity of 5: the whole chain computed on concrete arguments (fresh decoder, full-confidence soft bits) *)
+Example c20_end_to_end_instance :
+  LemmasE2E.lsf_pipeline_example ex_dst ex_src 7
+  = Ok (app_init unit tt,
+        [{| r_ret := true;
+            r_err := [10%N] ++ str "SRC: W1AW, DEST: N0CALL-9, STR:V/V CAN:07, NONCE: 0000000000000000000000000000, CRC: 9594" ++ [10%N];
+            r_out := []; r_c2 := [] |}])
+  /\ LemmasFD_Inst.fd_hid_ok FrameDecoderInst.fd_init /\ Forall (fun x => 1 <= x <= 7)%Z (repeat 7%Z 368).
+Proof. split; [vm_compute; reflexivity|]. split; [exact LemmasFD_Inst.fd_init_ok|].
+  apply Forall_forall. intros x Hx. apply repeat_spec in Hx. subst x. lia. Qed.
+Example c20_end_to_end_broadcast :
+  LemmasE2E.lsf_pipeline_example None ex_src 0
+  = Ok (app_init unit tt,
+        [{| r_ret := true;
+            r_err := [10%N] ++ str "SRC: W1AW, DEST: BROADCAST, STR:V/V CAN:00, NONCE: 0000000000000000000000000000, CRC: 91e6" ++ [10%N];
+            r_out := []; r_c2 := [] |}]).
 Proof. vm_compute. reflexivity. Qed.
